@@ -1,12 +1,14 @@
-int lfunc_0(void){ return 94; }
+int lfunc_0(void){ return 185; }
 void *addr_lfunc_0(void){ return (void*)lfunc_0; }
 extern int lfunc_0(void); void *l1_addr_lfunc_0(void){ return (void*)lfunc_0; }
-int ldata_1[2] = { 13 };
+int ldata_1[1] = { 86 };
 const void *addr_ldata_1(void){ return ldata_1; } int read_ldata_1(void){ return ldata_1[0]; }
 extern int ldata_1[]; const void *l1_addr_ldata_1(void){ return ldata_1; } int l1_read_ldata_1(void){ return ldata_1[0]; }
-extern int l2func_2(void); void *l1_addr_l2func_2(void){ return (void*)l2func_2; }
-static int impl_lifunc_3(void){ return 31; } static void *res_lifunc_3(void){ return (void*)impl_lifunc_3; } int lifunc_3(void) __attribute__((ifunc("res_lifunc_3"))); void *addr_lifunc_3(void){ return (void*)lifunc_3; }
-int lalias_ts_4[16]; extern __typeof(lalias_ts_4) t_lalias_ts_4 __attribute__((alias("lalias_ts_4")));
-void *addr_lalias_ts_4(void){ return (void*)lalias_ts_4; } int read_lalias_ts_4(void){ return lalias_ts_4[0]; } void write_lalias_ts_4(int v){ lalias_ts_4[0] = v; } void *waddr_lalias_ts_4(void){ return (void*)lalias_ts_4; }
-int lalias_sw_5 = 142; extern __typeof(lalias_sw_5) w_lalias_sw_5 __attribute__((weak, alias("lalias_sw_5")));
-void *addr_lalias_sw_5(void){ return (void*)&w_lalias_sw_5; } int read_lalias_sw_5(void){ return w_lalias_sw_5; } void write_lalias_sw_5(int v){ w_lalias_sw_5 = v; } void *waddr_lalias_sw_5(void){ return (void*)&w_lalias_sw_5; }
+extern int l2data_2[]; const void *l1_addr_l2data_2(void){ return l2data_2; } int l1_read_l2data_2(void){ return l2data_2[0]; }
+int ldata_bss_3[16];
+const void *addr_ldata_bss_3(void){ return ldata_bss_3; } int read_ldata_bss_3(void){ return ldata_bss_3[0]; }
+extern int ldata_bss_3[]; const void *l1_addr_ldata_bss_3(void){ return ldata_bss_3; } int l1_read_ldata_bss_3(void){ return ldata_bss_3[0]; }
+int lalias_ts_4 = 188; extern __typeof(lalias_ts_4) t_lalias_ts_4 __attribute__((alias("lalias_ts_4")));
+void *addr_lalias_ts_4(void){ return (void*)&lalias_ts_4; } int read_lalias_ts_4(void){ return lalias_ts_4; } void write_lalias_ts_4(int v){ lalias_ts_4 = v; } void *waddr_lalias_ts_4(void){ return (void*)&lalias_ts_4; }
+int lalias_sw_5[16]; extern __typeof(lalias_sw_5) w_lalias_sw_5 __attribute__((weak, alias("lalias_sw_5")));
+void *addr_lalias_sw_5(void){ return (void*)w_lalias_sw_5; } int read_lalias_sw_5(void){ return w_lalias_sw_5[0]; } void write_lalias_sw_5(int v){ w_lalias_sw_5[0] = v; } void *waddr_lalias_sw_5(void){ return (void*)w_lalias_sw_5; }
